@@ -518,6 +518,8 @@ def _sap_broadphase(
           geom_aabb, geom_rbound, geom_margin, geom_gap, geom_xpos_in, geom_xmat_in, geom1, geom2, worldid
         )
         or pairid[1] >= 0
+        # explicit pairs carry their own margin, which the bounding-volume filters (geom margins) do not know
+        or pairid[0] >= 0
       ):
         _add_geom_pair(
           geom_type,
@@ -752,6 +754,8 @@ def _nxn_broadphase(
         geom_aabb, geom_rbound, geom_margin, geom_gap, geom_xpos_in, geom_xmat_in, geom1, geom2, worldid
       )
       or nxn_pairid[elementid][1] >= 0
+      # explicit pairs carry their own margin, which the bounding-volume filters (geom margins) do not know
+      or nxn_pairid[elementid][0] >= 0
     ):
       _add_geom_pair(
         geom_type,
